@@ -192,6 +192,25 @@ class C18(Check):
         s.step(op)
         return True
 
+    def warm_if_stale(self, workers):
+        import time as _time
+
+        from ..driver import fork_map
+
+        cfgs = self.warm_configs()
+        sample = [cfgs[4], cfgs[len(cfgs) // 2 + 5], cfgs[-1]]
+        fn = self._warm_one
+
+        def timed(c):
+            t0 = _time.monotonic()
+            fn(c)
+            return _time.monotonic() - t0
+
+        slow = [x for x in fork_map(timed, sample, 3, 900) if x[1] != "ok" or x[2] > 15.0]
+        if slow:
+            print(f"JIT caches look stale ({len(slow)} of {len(sample)} sample configurations slow): re-warming")
+            self.warm_all(workers)
+
     def warm_all(self, workers):
         cfgs = self.warm_configs()
         bad = [x for x in fork_map(self._warm_one, cfgs, workers, 1500) if x[1] != "ok"]
